@@ -84,7 +84,7 @@ pub fn e2e_cases_leg(args: &Args, ncases: u64, stream: u64, leg: Option<(String,
 }
 
 
-/// A scenario WITHOUT injected loss during discovery whose only complaint is that a pair was not matched in time is run
+/// A scenario whose only complaint, in a phase WITHOUT injected loss, is that a pair was not matched in time is run
 /// once more, at once, with fresh participants. Whatever the scenario itself provokes (every seeded change to
 /// matching, every pinned witness) fails again and is reported from the second run. An expiry that does not come
 /// back is undecided: counted, printed as INCONCLUSIVE-CASE with the scenario, never reported as a violation and
@@ -96,7 +96,9 @@ fn run_with_one_retry(sc: &stk2::Sc7, sec: Option<(String, std::path::PathBuf)>,
   let is_match_expiry = |sig: &str| sig.starts_with("C07/match:") && sig.contains("within-bound");
   let mut first = Acc::default();
   let out = stk2::run_scenario_sec(sc, sec.clone(), domain, &mut first, tag, i);
-  if sc.loss_disc_ppm > 0 || first.violations.is_empty() || first.violations.iter().any(|v| !is_match_expiry(&v.signature)) {
+  // the first match happens under the discovery loss rate, every later one under the traffic loss rate as well
+  let lossless = |sig: &str| sc.loss_disc_ppm == 0 && (sig.contains("compatible-pair-not-matched-within-bound") || sc.loss_ppm == 0);
+  if first.violations.is_empty() || first.violations.iter().any(|v| !is_match_expiry(&v.signature) || !lossless(&v.signature)) {
     acc.merge(first);
     return out;
   }
